@@ -266,8 +266,8 @@ Section Inv.
     destruct (_ =? IndentedCodeBlockKind).
     { unfold matchIndented. cbv zeta. destruct (_ <? _); [destruct (negb _)|]; cbn [snd]; try apply invP_consumeIndent; assumption. }
     destruct (_ =? HTMLBlockKind).
-    { unfold matchHTML. destruct (htmlEnd _ _); [|assumption]. cbn [snd]. apply invP_consumeLine.
-      destruct (negb _); [apply invP_collectInline; [assumption|tauto]|assumption]. }
+    { unfold matchHTML. destruct (htmlEnd _ _); [|assumption]. destruct (isRestBlank _); [assumption|]. cbn [snd]. apply invP_consumeLine.
+      apply invP_collectInline; [assumption|tauto]. }
     assumption.
   Qed.
 
